@@ -287,7 +287,10 @@ namespace
         void on_stop_node_failed(const NodeView &n) override { node_ev("x!", n); }
         void on_before_graph_evaluation(const GraphView &g) override
         {
-            if (g.is_root()) { W.cycle = std::min<std::size_t>(testing::cycle_offset(g.evaluation_time()), ncycles); }
+            if (g.is_root())
+            {
+                W.cycle = std::min<std::size_t>(testing::cycle_offset(g.evaluation_time()), ncycles);
+            }
         }
     };
 
@@ -404,7 +407,9 @@ namespace
         }   // executor released here
 
         std::vector<std::string> lines;
-        const std::size_t        failed_at = threw ? std::min(W.cycle, cycles.size()) : cycles.size();
+        // an error annotated `evaluate failed` ended the run inside the last cycle that began
+        const bool               in_eval   = threw && error.substr(0, error.find('\n')).find("] evaluate failed: ") != std::string::npos;
+        const std::size_t        failed_at = in_eval ? std::min(W.cycle, cycles.size()) : cycles.size();
         for (std::size_t i = 0; i < cycles.size(); ++i)
         {
             if (i > failed_at) { lines.push_back("dead"); }
